@@ -5,6 +5,7 @@
 -/
 import PV.Model.ChanIds
 import PV.Generated.C23
+import PV.Generated.ChanLock
 namespace PV.Props.C23
 open PV.ChanIds
 
@@ -343,6 +344,13 @@ theorem counter_never_moves_backwards (c : Nat) (hc : c < M) (h1 h2 : List Act) 
     | cons a as ih => intro s; exact Nat.le_trans (step_ticks_mono s a) (ih _)
   have e : run (init c) (h1 ++ h2) = run (run (init c) h1) h2 := by simp [run, List.foldl_append]
   rw [e]; exact this h2 _
+
+/-- the model's `delete id` for a peer CLOSE removes the entry of the channel that was closed: in the source every
+    `transport._unlink_channel(…)` call of class Channel passes `self.chanid`, the key of the channel map (AST of
+    channel.py on this run; table shared with C22) -/
+theorem unlink_uses_the_local_id :
+    PV.Generated.ChanLock.unlinkArgs ≠ [] ∧ ∀ a ∈ PV.Generated.ChanLock.unlinkArgs, a = "self.chanid" := by
+  decide
 
 /-! ## open channels stay registered -/
 
